@@ -162,17 +162,16 @@ type nodeResult struct {
 	Err string  `json:"err"`
 }
 
+// Each script is compiled and run as the body of a fresh function (its `var x`
+// is local to it); x is returned when it is a string.
 const nodeProgram = `
-const vm = require('vm');
 const rl = require('readline').createInterface({input: process.stdin, terminal: false});
 rl.on('line', (line) => {
   let out;
   try {
     const src = JSON.parse(line);
-    const ctx = vm.createContext({});
-    new vm.Script(src).runInContext(ctx, {timeout: 10000});
-    const v = vm.runInContext('typeof x === "string" ? x : null', ctx);
-    out = {ok: true, val: v};
+    const f = new Function(src + "\n;return typeof x === 'string' ? x : null;");
+    out = {ok: true, val: f()};
   } catch (e) { out = {ok: false, val: null, err: String(e).slice(0, 80)}; }
   process.stdout.write(JSON.stringify(out) + "\n");
 });
@@ -236,7 +235,7 @@ func hostileInputs(c *Ctx, nRandom int, f func(s string)) {
 		f(h)
 	}
 	// pairs: a hostile value followed by / preceded by another
-	lim := 10
+	lim := 6
 	if c.Thorough() {
 		lim = len(hostile)
 	}
@@ -265,8 +264,16 @@ func hostileInputs(c *Ctx, nRandom int, f func(s string)) {
 // ---- oracles for the reference scanners: true = the text leaves its slot (or
 // cannot be said to stay) according to the real tokenizer / parser
 
+var benignStructure = map[string]string{}
+
 func htmlBreaks(pre, x, suf, slotAttr string) bool {
-	return structure(tokenize(pre+x+suf), slotAttr) != structure(tokenize(pre+"a"+suf), slotAttr)
+	k := pre + "\x00" + suf + "\x00" + slotAttr
+	b, ok := benignStructure[k]
+	if !ok {
+		b = structure(tokenize(pre+"a"+suf), slotAttr)
+		benignStructure[k] = b
+	}
+	return structure(tokenize(pre+x+suf), slotAttr) != b
 }
 
 type scannerOracle struct {
